@@ -430,6 +430,8 @@ class Sparsify(EnvironmentFilter):
         actions_has_headers = 'actions' in first and hasattr(first['actions'][0],'headers')
         action_has_headers  = 'action'  in first and hasattr(first['action' ]   ,'headers')
 
+        targets = [t for t in ['rewards','feedbacks'] if callable(first.get(t))]
+
         for interaction in interactions:
 
             new = interaction.copy()
@@ -438,7 +440,12 @@ class Sparsify(EnvironmentFilter):
                 new['context'] = self._make_sparse(new['context'], context_has_headers, 'context')
 
             if self._action and 'actions' in new:
-                new['actions'] = list(map(self._make_sparse,new['actions'],repeat(actions_has_headers),repeat('action')))
+                old_actions = new['actions']
+                new['actions'] = list(map(self._make_sparse,old_actions,repeat(actions_has_headers),repeat('action')))
+
+                if targets and any(n is not o for n,o in zip(new['actions'],old_actions)):
+                    for target in targets:
+                        new[target] = DiscreteReward(new['actions'],list(map(new[target],old_actions)))
 
             if self._action and 'action' in new:
                 new['action'] = self._make_sparse(new['action'],action_has_headers,'action')
@@ -508,6 +515,10 @@ class Densify(EnvironmentFilter):
 
     def filter(self, interactions: Iterable[Interaction]) -> Iterable[Interaction]:
 
+        first,interactions = peek_first(interactions)
+
+        targets = [t for t in ['rewards','feedbacks'] if first and callable(first.get(t))]
+
         for interaction in interactions:
 
             new = interaction.copy()
@@ -516,7 +527,12 @@ class Densify(EnvironmentFilter):
                 new['context'] = self._make_dense(new['context'])
 
             if self._action and 'actions' in new:
-                new['actions'] = list(map(self._make_dense,new['actions']))
+                old_actions = new['actions']
+                new['actions'] = list(map(self._make_dense,old_actions))
+
+                if targets and any(n is not o for n,o in zip(new['actions'],old_actions)):
+                    for target in targets:
+                        new[target] = DiscreteReward(new['actions'],list(map(new[target],old_actions)))
 
             if self._action and 'action' in new:
                 new['action'] = self._make_dense(new['action'])
